@@ -263,3 +263,200 @@ Proof.
       * assert (k' <> k) by (intro; subst; tauto).
         apply (G k' k x); auto. apply in_or_app. left; exact P2.
 Qed.
+
+(* the pinned loop: the visited entries leave their place, their flattenings pile up at the end in visiting order *)
+Lemma filt_app P a b : filt P (a ++ b) = filt P a ++ filt P b.
+Proof. unfold filt. apply filter_app. Qed.
+
+Lemma filt_ext P Q c : (forall x, In x (keys c) -> mem x P = mem x Q) -> filt P c = filt Q c.
+Proof.
+  intros H. unfold filt. apply filter_ext_in. intros [k v] Hi. simpl. rewrite (H k); [reflexivity|].
+  unfold keys. apply in_map_iff. exists (k, v). auto.
+Qed.
+
+Lemma filt_nil c : filt [] c = c.
+Proof. unfold filt. induction c as [|kv c IH]; simpl; [reflexivity | f_equal; exact IH]. Qed.
+
+Lemma keys_flat_map_in f D x : In x (keys (flat_map (fo f) D)) -> exists k, In k D /\ In x (keys (fo f k)).
+Proof.
+  unfold keys. rewrite in_map_iff. intros [kv [<- Hi]]. apply in_flat_map in Hi. destruct Hi as [k [A B]].
+  exists k. split; [exact A | apply in_map; exact B].
+Qed.
+
+Lemma run_pinned_closed f c : forall pi done,
+  WF f c (done ++ pi) -> (forall k, In k pi -> exists l, f k = Ok l) ->
+  run_pinned f pi (filt done c ++ flat_map (fo f) done) = Ok (filt (done ++ pi) c ++ flat_map (fo f) (done ++ pi)).
+Proof.
+  induction pi as [|k pi IH]; intros done W Hok.
+  - rewrite app_nil_r. reflexivity.
+  - destruct W as [A B C E F G]. destruct (nodup_app_inv _ _ B) as [B1 [B2 B3]].
+    assert (HkD : In k (done ++ k :: pi)) by (apply in_or_app; right; left; reflexivity).
+    assert (Hkd : ~ In k done) by (intro Hi; apply (B3 k Hi); left; reflexivity).
+    destruct (keys_split c k (C k HkD) A) as [pre [v [post [-> [Hpre Hpost]]]]].
+    destruct (Hok k (or_introl eq_refl)) as [new Hnew].
+    assert (Hfo : fo f k = new) by (unfold fo; rewrite Hnew; reflexivity).
+    cbn [run_pinned run_loop]. fold (run_pinned f).
+    rewrite filt_app. change ((k, v) :: post) with ([(k, v)] ++ post). rewrite filt_app.
+    assert (S1 : filt done [(k, v)] = [(k, v)]).
+    { unfold filt. simpl. apply mem_false in Hkd. rewrite Hkd. reflexivity. }
+    rewrite S1. simpl app. rewrite <- app_assoc. simpl app.
+    rewrite (step_pinned_split f _ k v _ new Hnew).
+    + replace ((filt done pre ++ filt done post ++ flat_map (fo f) done) ++ new)
+        with (filt (done ++ [k]) (pre ++ [(k, v)] ++ post) ++ flat_map (fo f) (done ++ [k])).
+      * replace (done ++ k :: pi) with ((done ++ [k]) ++ pi) by (rewrite <- app_assoc; reflexivity).
+        apply IH.
+        -- rewrite <- app_assoc. simpl. constructor; auto.
+        -- intros k' Hk'. apply Hok. right; exact Hk'.
+      * assert (S2 : filt (done ++ [k]) [(k, v)] = []).
+        { unfold filt. simpl. rewrite mem_app. simpl. rewrite String.eqb_refl, orb_true_r. reflexivity. }
+        repeat rewrite filt_app. rewrite S2. rewrite flat_map_app. cbn [flat_map]. rewrite app_nil_r, Hfo. cbn [app].
+        repeat rewrite <- app_assoc. f_equal; [|f_equal].
+        -- apply filt_ext. intros x Hx. rewrite mem_app. simpl. rewrite orb_false_r.
+           destruct (String.eqb x k) eqn:Exk; [apply String.eqb_eq in Exk; subst; tauto | rewrite orb_false_r; reflexivity].
+        -- apply filt_ext. intros x Hx. rewrite mem_app. simpl. rewrite orb_false_r.
+           destruct (String.eqb x k) eqn:Exk; [apply String.eqb_eq in Exk; subst; tauto | rewrite orb_false_r; reflexivity].
+    + intro Hi. apply Hpre. exact (keys_filt_in _ _ _ Hi).
+    + rewrite <- Hfo. apply E. exact HkD.
+    + intros x Hx Hx2. rewrite <- Hfo in Hx. repeat rewrite keys_app in Hx2.
+      apply in_app_or in Hx2. destruct Hx2 as [P1|P1]; [|apply in_app_or in P1; destruct P1 as [P1|P1]].
+      * apply (F k x HkD Hx). rewrite keys_app. apply in_or_app. left. exact (keys_filt_in _ _ _ P1).
+      * apply (F k x HkD Hx). rewrite keys_app. apply in_or_app. right. right. exact (keys_filt_in _ _ _ P1).
+      * apply keys_flat_map_in in P1. destruct P1 as [k' [Q1 Q2]].
+        assert (k' <> k) by (intro; subst; tauto).
+        apply (G k' k x); auto. apply in_or_app. left; exact Q1.
+Qed.
+
+(* ------------------------------------------------------------------ errors: every failure is the same failure *)
+Lemma move_all_err ns : forall c e, move_all ns c = Error e -> e = EMissing.
+Proof.
+  induction ns as [|n ns IH]; simpl; intros c e H. { discriminate. }
+  unfold move_to_end in H. destruct (lookup n c); simpl in H; [exact (IH _ _ H) | inversion H; reflexivity].
+Qed.
+
+Lemma step_repaired_err f c k e : step_repaired f c k = Error e -> e = EMissing.
+Proof.
+  unfold step_repaired. destruct (mem k (keys c)); [|intros H; inversion H; reflexivity].
+  destruct (f k); [apply move_all_err | intros H; inversion H; reflexivity].
+Qed.
+
+Lemma step_pinned_err f c k e : step_pinned f c k = Error e -> e = EMissing.
+Proof.
+  unfold step_pinned. destruct (mem k (keys c)); [|intros H; inversion H; reflexivity].
+  destruct (f k); intros H; inversion H; reflexivity.
+Qed.
+
+Lemma run_loop_err step (Hs : forall c k e, step c k = Error e -> e = EMissing) pi :
+  forall c e, run_loop step pi c = Error e -> e = EMissing.
+Proof.
+  induction pi as [|k pi IH]; simpl; intros c e H. { discriminate. }
+  destruct (step c k) eqn:E; simpl in H; [exact (IH _ _ H) | inversion H; subst; exact (Hs _ _ _ E)].
+Qed.
+
+Lemma run_loop_bad step k (Hb : forall c, exists e, step c k = Error e) pi :
+  In k pi -> forall c, exists e, run_loop step pi c = Error e.
+Proof.
+  induction pi as [|k' pi IH]; simpl; intros Hi c. { tauto. }
+  destruct (step c k') eqn:E; simpl; [|eauto]. destruct Hi as [->|Hi]; [|exact (IH Hi _)].
+  destruct (Hb c) as [e He]. congruence.
+Qed.
+
+Lemma step_repaired_bad f k e : f k = Error e -> forall c, exists e', step_repaired f c k = Error e'.
+Proof. intros H c. unfold step_repaired. rewrite H. destruct (mem k (keys c)); eauto. Qed.
+
+Lemma step_pinned_bad f k e : f k = Error e -> forall c, exists e', step_pinned f c k = Error e'.
+Proof. intros H c. unfold step_pinned. rewrite H. destruct (mem k (keys c)); eauto. Qed.
+
+(* ------------------------------------------------------------------ boolean well-formedness *)
+Fixpoint nodupb (l : list key) : bool :=
+  match l with [] => true | x :: t => negb (mem x t) && nodupb t end.
+
+Lemma nodupb_spec l : nodupb l = true -> NoDup l.
+Proof.
+  induction l as [|x l IH]; simpl; intros H; constructor; apply andb_prop in H; destruct H as [A B].
+  - apply mem_false. destruct (mem x l); [discriminate|reflexivity].
+  - exact (IH B).
+Qed.
+
+Definition wf_loop (f : flat_fn) (c : conns) (D : list key) : bool :=
+  nodupb (keys c) && nodupb D &&
+  forallb (fun k => mem k (keys c) && nodupb (keys (fo f k)) &&
+                    forallb (fun x => negb (mem x (keys c))) (keys (fo f k)) &&
+                    forallb (fun k2 => String.eqb k k2 || forallb (fun x => negb (mem x (keys (fo f k2)))) (keys (fo f k))) D) D.
+
+Lemma wf_loop_spec f c D : wf_loop f c D = true -> WF f c D.
+Proof.
+  unfold wf_loop. intros H. apply andb_prop in H. destruct H as [H H3]. apply andb_prop in H. destruct H as [H1 H2].
+  rewrite forallb_forall in H3.
+  assert (P : forall k, In k D -> In k (keys c) /\ NoDup (keys (fo f k)) /\
+               (forall x, In x (keys (fo f k)) -> ~ In x (keys c)) /\
+               (forall k2 x, In k2 D -> k <> k2 -> In x (keys (fo f k)) -> ~ In x (keys (fo f k2)))).
+  { intros k Hk. specialize (H3 k Hk). apply andb_prop in H3. destruct H3 as [H3 Q4]. apply andb_prop in H3.
+    destruct H3 as [H3 Q3]. apply andb_prop in H3. destruct H3 as [Q1 Q2]. repeat split.
+    - apply mem_In; exact Q1.
+    - apply nodupb_spec; exact Q2.
+    - intros x Hx. rewrite forallb_forall in Q3. specialize (Q3 x Hx). apply mem_false. destruct (mem x (keys c)); [discriminate|reflexivity].
+    - intros k2 x Hk2 Hne Hx. rewrite forallb_forall in Q4. specialize (Q4 k2 Hk2). apply orb_prop in Q4. destruct Q4 as [Q4|Q4].
+      + apply String.eqb_eq in Q4. tauto.
+      + rewrite forallb_forall in Q4. specialize (Q4 x Hx). apply mem_false. destruct (mem x (keys (fo f k2))); [discriminate|reflexivity]. }
+  constructor.
+  - apply nodupb_spec; exact H1.
+  - apply nodupb_spec; exact H2.
+  - intros k Hk. apply (P k Hk).
+  - intros k Hk. apply (P k Hk).
+  - intros k x Hk. apply (P k Hk).
+  - intros k1 k2 x Hk1 Hk2. apply (P k1 Hk1); exact Hk2.
+Qed.
+
+(* ------------------------------------------------------------------ the theorems about the loops *)
+Lemma all_ok_dec (f : flat_fn) (pi : list key) : (forall k, In k pi -> exists l, f k = Ok l) \/ (exists k e, In k pi /\ f k = Error e).
+Proof.
+  induction pi as [|k pi IH]. { left. intros k []. }
+  destruct (f k) eqn:E.
+  - destruct IH as [IH|[k' [e [A B]]]]; [left | right; exists k', e; split; [right; exact A | exact B]].
+    intros k' [<-|Hk]; eauto.
+  - right. exists k, e. split; [left; reflexivity | exact E].
+Qed.
+
+Lemma repaired_is_flatten f c pi : WF f c pi -> (forall k, In k pi -> exists l, f k = Ok l) ->
+  run_repaired f pi c = Ok (flatten_in_place (fun k => mem k pi) (fo f) c).
+Proof.
+  intros W Hok. pose proof (run_repaired_closed f c pi [] W Hok) as H. rewrite subst_nil in H. exact H.
+Qed.
+
+Lemma repaired_order_irrelevant f c pi1 pi2 : WF f c pi1 -> Permutation pi1 pi2 ->
+  run_repaired f pi1 c = run_repaired f pi2 c.
+Proof.
+  intros W HP. destruct (all_ok_dec f pi1) as [Hok|[k [e [Hk He]]]].
+  - rewrite (repaired_is_flatten f c pi1 W Hok).
+    rewrite (repaired_is_flatten f c pi2 (wf_perm _ _ _ _ HP W)).
+    + f_equal. apply (subst_ext f pi1 pi2 c). intros x _. apply mem_perm. exact HP.
+    + intros k Hk. apply Hok. apply (Permutation_in _ (Permutation_sym HP)). exact Hk.
+  - destruct (run_loop_bad (step_repaired f) k (step_repaired_bad f k e He) pi1 Hk c) as [e1 H1].
+    destruct (run_loop_bad (step_repaired f) k (step_repaired_bad f k e He) pi2 (Permutation_in _ HP Hk) c) as [e2 H2].
+    unfold run_repaired. rewrite H1, H2.
+    rewrite (run_loop_err _ (step_repaired_err f) _ _ _ H1), (run_loop_err _ (step_repaired_err f) _ _ _ H2). reflexivity.
+Qed.
+
+Lemma pinned_closed f c pi : WF f c pi -> (forall k, In k pi -> exists l, f k = Ok l) ->
+  run_pinned f pi c = Ok (filt pi c ++ flat_map (fo f) pi).
+Proof.
+  intros W Hok. pose proof (run_pinned_closed f c pi [] W Hok) as H. simpl in H. rewrite filt_nil, app_nil_r in H. exact H.
+Qed.
+
+Lemma pinned_partition f c pi1 pi2 : WF f c pi1 -> Permutation pi1 pi2 ->
+  match run_pinned f pi1 c, run_pinned f pi2 c with
+  | Ok r1, Ok r2 => Permutation r1 r2
+  | Error e1, Error e2 => e1 = e2
+  | _, _ => False
+  end.
+Proof.
+  intros W HP. destruct (all_ok_dec f pi1) as [Hok|[k [e [Hk He]]]].
+  - rewrite (pinned_closed f c pi1 W Hok). rewrite (pinned_closed f c pi2 (wf_perm _ _ _ _ HP W)).
+    + replace (filt pi2 c) with (filt pi1 c) by (apply filt_ext; intros x _; apply mem_perm; exact HP).
+      apply Permutation_app_head. apply Permutation_flat_map. exact HP.
+    + intros k Hk. apply Hok. apply (Permutation_in _ (Permutation_sym HP)). exact Hk.
+  - destruct (run_loop_bad (step_pinned f) k (step_pinned_bad f k e He) pi1 Hk c) as [e1 H1].
+    destruct (run_loop_bad (step_pinned f) k (step_pinned_bad f k e He) pi2 (Permutation_in _ HP Hk) c) as [e2 H2].
+    unfold run_pinned. rewrite H1, H2.
+    rewrite (run_loop_err _ (step_pinned_err f) _ _ _ H1), (run_loop_err _ (step_pinned_err f) _ _ _ H2). reflexivity.
+Qed.
